@@ -45,7 +45,8 @@ type Route struct {
 	Dst    string `json:"dst,omitempty"` // "" = default
 	Dev    string `json:"dev"`
 	Via    string `json:"via,omitempty"`
-	Metric int    `json:"metric"`
+	Metric int64  `json:"metric"`
+	Src    string `json:"src,omitempty"` // preferred source address hint ("src" of ip-route)
 }
 
 type Scenario struct {
@@ -368,6 +369,9 @@ func main() {
 			args = append(args, "via", r.Via)
 		}
 		args = append(args, "dev", r.Dev, "metric", fmt.Sprint(r.Metric))
+		if r.Src != "" {
+			args = append(args, "src", r.Src)
+		}
 		if fail(ip(args...)) {
 			return
 		}
